@@ -4,15 +4,19 @@
 package c04
 
 import (
+	"encoding/binary"
+	"errors"
 	"fmt"
 	"io"
 	"os"
 	"path/filepath"
 	"strconv"
 	"strings"
+	"sync"
 	"time"
 
 	"github.com/influxdata/influxdb/services/hh"
+	"github.com/influxdata/influxdb/services/meta"
 	"verifharness/fw"
 )
 
@@ -107,6 +111,55 @@ func genCase(r *fw.Rand) fw.Case {
 	return fw.Case{Ops: ops}
 }
 
+// genProcCase: the node processor's sender (`psend` = one SendWrite round) over the same queue:
+// blocks are well-formed hinted writes; rounds run with the shard writer healthy or failing
+// (retryable), and with an append landing between the sender's look at the head of the queue
+// and its reaction to finding nothing there (`psendmid`), around segment roll-overs.
+func genProcCase(r *fw.Rand) fw.Case {
+	maxSeg := []int{64, 100, 200, 400}[r.Intn(4)]
+	ops := []string{fmt.Sprintf("reset %d 100000", maxSeg)}
+	id := 0
+	blk := func() (int, int) {
+		id++
+		l := 13 + len(fmt.Sprint(id)) + r.Intn(maxSeg/2)
+		if r.Intn(5) == 0 {
+			l = maxSeg - 16 - r.Intn(3)
+		}
+		if l < 13+len(fmt.Sprint(id)) {
+			l = 13 + len(fmt.Sprint(id))
+		}
+		return id, l
+	}
+	n := 10 + r.Intn(50)
+	for i := 0; i < n; i++ {
+		switch r.Intn(10) {
+		case 0, 1, 2:
+			a, l := blk()
+			ops = append(ops, fmt.Sprintf("append %d %d 0", a, l), "empty")
+		case 3, 4, 5:
+			ops = append(ops, "psend 1", "empty")
+		case 6:
+			ops = append(ops, "psend 0", "empty")
+		case 7, 8:
+			a, l := blk()
+			ops = append(ops, fmt.Sprintf("psendmid %d %d", a, l), "empty")
+		default:
+			// drain, then a round on the empty queue with an append in between
+			for k := 0; k < 3; k++ {
+				ops = append(ops, "psend 1")
+			}
+			a, l := blk()
+			ops = append(ops, "empty", fmt.Sprintf("psendmid %d %d", a, l), "empty")
+		}
+	}
+	ops = append(ops, "dappend 9999 20 0")
+	for i := 0; i < id+5; i++ {
+		ops = append(ops, "dcurrent", "dadvance")
+	}
+	ops = append(ops, "dempty", "usage")
+	return fw.Case{Ops: ops, Tags: []string{"sender"}}
+}
+
 func (Prop) Generate(r *fw.Rand, tier string) []fw.Case {
 	n := 400
 	if tier == "thorough" {
@@ -114,13 +167,30 @@ func (Prop) Generate(r *fw.Rand, tier string) []fw.Case {
 	}
 	var cases []fw.Case
 	for i := 0; i < n; i++ {
+		if i%4 == 3 {
+			cases = append(cases, genProcCase(r.Fork()))
+			continue
+		}
 		cases = append(cases, genCase(r.Fork()))
 	}
 	return cases
 }
 
+// payload is the block with the given id and length. A block of 13 bytes or more (plus the
+// id's digits) is a well-formed hinted write as `unmarshalWrite` reads it — 8-byte shard id
+// (zero), one point: 4-byte length and the bytes (the id's digits, then padding) — so that the
+// node processor can send it; a shorter one is the digits and padding alone.
 func payload(id, l int) []byte {
 	ds := []byte(strconv.Itoa(id))
+	if l >= 12+len(ds) {
+		b := make([]byte, 12, l)
+		binary.BigEndian.PutUint32(b[8:12], uint32(l-12))
+		b = append(b, ds...)
+		for len(b) < l {
+			b = append(b, 'x')
+		}
+		return b
+	}
 	for len(ds) < l {
 		ds = append(ds, 'x')
 	}
@@ -128,6 +198,9 @@ func payload(id, l int) []byte {
 }
 
 func blockID(b []byte) int {
+	if len(b) > 12 && b[0] == 0 {
+		b = b[12:]
+	}
 	n := 0
 	for _, c := range b {
 		if c < '0' || c > '9' {
@@ -139,8 +212,50 @@ func blockID(b []byte) int {
 }
 
 type impl struct {
-	dir string
-	q   *hh.VerifQueue
+	dir  string
+	q    *hh.VerifQueue
+	proc *hh.NodeProcessor
+	w    *recWriter
+}
+
+// recWriter is the shard writer behind the node processor: it records what it is given.
+type recWriter struct {
+	fail bool
+	sent [][]byte // first point of every block written
+}
+
+func (w *recWriter) WriteShardBinary(shardID, ownerID uint64, points [][]byte) error {
+	if w.fail {
+		return errors.New("injected: node unreachable")
+	}
+	var p []byte
+	if len(points) > 0 {
+		p = points[0]
+	}
+	w.sent = append(w.sent, p)
+	return nil
+}
+
+type oneNode struct{}
+
+func (oneNode) DataNode(id uint64) (*meta.NodeInfo, error) { return &meta.NodeInfo{ID: id}, nil }
+
+var sendMu, midMu sync.Mutex
+var midFn func() // runs at the processor's "sendwrite.eof" step (one shot)
+
+func init() {
+	hh.VerifSetPointFn(func(name string) {
+		if name != "sendwrite.eof" {
+			return
+		}
+		midMu.Lock()
+		f := midFn
+		midFn = nil
+		midMu.Unlock()
+		if f != nil {
+			f()
+		}
+	})
 }
 
 func errName(err error) string {
@@ -181,15 +296,18 @@ func (m *impl) step(op string) (out string) {
 		if len(f) == 3 {
 			maxSeg, maxSize = atoi(f[1]), atoi(f[2])
 		}
-		q, err := hh.VerifNewQueue(m.dir, int64(maxSize), 16)
-		if err != nil {
+		// the queue of a node processor whose background sender is not running: `psend` ops
+		// drive NodeProcessor.SendWrite step by step, every other op goes to the queue itself
+		cfg := hh.NewConfig()
+		cfg.MaxSize = int64(maxSize)
+		cfg.MaxWritesPending = 16
+		m.w = &recWriter{}
+		m.proc = hh.NewNodeProcessor(cfg, 2, 1, m.dir, m.w, oneNode{})
+		if err := hh.VerifOpenProcessor(m.proc); err != nil {
 			return errName(err)
 		}
-		m.q = q
-		if err := q.Open(); err != nil {
-			return errName(err)
-		}
-		return errName(q.SetMaxSegmentSize(int64(maxSeg)))
+		m.q = hh.VerifProcessorQueue(m.proc)
+		return errName(m.q.SetMaxSegmentSize(int64(maxSeg)))
 	case "append":
 		var release func()
 		if f[3] == "1" {
@@ -200,6 +318,40 @@ func (m *impl) step(op string) (out string) {
 			release()
 		}
 		return errName(err)
+	case "psend", "psendmid":
+		m.w.fail = f[0] == "psend" && f[1] == "0"
+		m.w.sent = nil
+		mid := "none"
+		// the step hook carries no context: one SendWrite at a time across the parallel cases
+		sendMu.Lock()
+		defer sendMu.Unlock()
+		if f[0] == "psendmid" {
+			id, l := atoi(f[1]), atoi(f[2])
+			midMu.Lock()
+			midFn = func() { mid = errName(m.q.Append(payload(id, l))) }
+			midMu.Unlock()
+		}
+		n, err := m.proc.SendWrite()
+		midMu.Lock()
+		midFn = nil
+		midMu.Unlock()
+		res := ""
+		switch {
+		case err == nil && len(m.w.sent) == 1:
+			res = fmt.Sprintf("sent %d %d", blockID(m.w.sent[0]), n)
+		case err == nil:
+			res = fmt.Sprintf("sent-nothing %d", n)
+		case err == io.EOF:
+			res = "eof"
+		case m.w.fail && strings.Contains(err.Error(), "injected"):
+			res = "fail"
+		default:
+			res = errName(err)
+		}
+		if f[0] == "psendmid" {
+			res += " mid=" + mid
+		}
+		return res
 	case "current":
 		b, err := m.q.Current()
 		if err != nil {
@@ -340,6 +492,30 @@ func (Prop) Oracle(c fw.Case, out []string) fw.Verdict {
 					pending = pending[idx:] // the older ones were purged by age
 				}
 				lastCurrent = id
+			}
+		case "psend", "psendmid":
+			lastCurrent = -1
+			of := strings.Fields(o)
+			if len(of) >= 2 && of[0] == "sent" {
+				// the sender delivered a block: it must be the oldest pending one
+				id, _ := strconv.Atoi(of[1])
+				if len(pending) == 0 || pending[0] != id {
+					if purged {
+						for len(pending) > 0 && pending[0] != id {
+							pending = pending[1:]
+						}
+					}
+					if len(pending) == 0 || pending[0] != id {
+						return fw.Verdict{OK: false, Why: fmt.Sprintf("op %d %q sent block %d, the oldest pending block is %v", i, op, id, pending), Signature: "sender delivered a block that is not the oldest pending one"}
+					}
+				}
+				pending = pending[1:]
+			}
+			if strings.HasSuffix(o, "mid=ok") {
+				// an append accepted while the sender was between its look at the queue and
+				// its reaction: the block is pending like any other
+				id, _ := strconv.Atoi(f[1])
+				pending = append(pending, id)
 			}
 		case "advance":
 			if o == "ok" && lastCurrent >= 0 && len(pending) > 0 && pending[0] == lastCurrent {
